@@ -303,39 +303,52 @@ fn extract_source_map<R: Read>(
 ) -> OriginalSourceMap {
     let mut source_map_comment = None;
     let mut source: Option<SourceMap> = None;
+
+    // several sourceMappingURL comments may exist: the last one in the file is the one in effect.
+    // The comments map has no defined iteration order, so select it by position.
+    let mut last_comment = None;
     for trailing in comments.trailing.iter() {
         for comment in trailing.iter() {
-            let trim_comment = comment.text.trim();
-            if trim_comment.starts_with(SOURCE_MAP_URL) {
-                source_map_comment = Some(String::from(comment.text.as_str()));
-                let url = trim_comment.get(SOURCE_MAP_URL.len()..).unwrap();
-                source = decode_data_url(url)
-                    .map_err(Error::new)
-                    .or_else(|_| {
-                        let source_path = PathBuf::from(url);
-                        let final_path = if source_path.is_absolute() {
-                            source_path
-                        } else {
-                            // a file name without a parent folder ("" or "/") has no relative source map
-                            let folder =
-                                file_reader.parent(Path::new(file_path)).ok_or_else(|| {
-                                    std::io::Error::new(
-                                        std::io::ErrorKind::NotFound,
-                                        "source file has no parent folder",
-                                    )
-                                })?;
-                            folder.join(source_path)
-                        };
-
-                        decode(file_reader.read(&final_path)?)
+            if comment.text.trim().starts_with(SOURCE_MAP_URL)
+                && last_comment
+                    .as_ref()
+                    .map_or(true, |last: &swc_common::comments::Comment| {
+                        comment.span.lo >= last.span.lo
                     })
-                    .ok()
-                    .and_then(|it| match it {
-                        DecodedMap::Regular(source) => Some(source),
-                        _ => None,
-                    });
+            {
+                last_comment = Some(comment.clone());
             }
         }
+    }
+
+    if let Some(comment) = last_comment {
+        let trim_comment = comment.text.trim();
+        source_map_comment = Some(String::from(comment.text.as_str()));
+        let url = trim_comment.get(SOURCE_MAP_URL.len()..).unwrap();
+        source = decode_data_url(url)
+            .map_err(Error::new)
+            .or_else(|_| {
+                let source_path = PathBuf::from(url);
+                let final_path = if source_path.is_absolute() {
+                    source_path
+                } else {
+                    // a file name without a parent folder ("" or "/") has no relative source map
+                    let folder = file_reader.parent(Path::new(file_path)).ok_or_else(|| {
+                        std::io::Error::new(
+                            std::io::ErrorKind::NotFound,
+                            "source file has no parent folder",
+                        )
+                    })?;
+                    folder.join(source_path)
+                };
+
+                decode(file_reader.read(&final_path)?)
+            })
+            .ok()
+            .and_then(|it| match it {
+                DecodedMap::Regular(source) => Some(source),
+                _ => None,
+            });
     }
 
     OriginalSourceMap {
